@@ -14,7 +14,7 @@ Pal(dt, k) ==
     [] dt \in {"u4", "u8"} -> IF k = 1 THEN <<3, 1, 0, 7, 5, 3, 2>> ELSE <<1000, 0, 999, 7, 1000>>
     [] OTHER -> IF k = 1 THEN <<<<3, 2>>, <<-1, 4>>, <<0, 1>>, <<7, 1>>, <<-5, 2>>, <<3, 2>>, <<2, 1>>>>
                 ELSE IF k = 2 THEN <<<<1, 0>>, <<-1, 0>>, <<0, 0>>, <<1, 2>>, <<-3, 1>>, <<1, 0>>>>
-                ELSE <<<<1, 0>>, <<1, 2>>, <<-3, 1>>, <<7, 1>>, <<-1, 0>>, <<5, 2>>, <<1, 0>>>>      \* k = 3: infinities, no NaN
+                ELSE <<<<1, 0>>, <<1, 2>>, <<-3, 1>>, <<7, 1>>, <<-1, 0>>, <<-1, 0>>, <<1, 0>>>>      \* k = 3: infinities, no NaN
 Cell(dt, k, i) == Pal(dt, k)[((i - 1) % Len(Pal(dt, k))) + 1]
 ArrP(dt, lens, k) == <<dt, Unflatten([i \in 1..Total(lens) |-> Cell(dt, k, i)], lens)>>
 \* a second array of the same shape with different content (shifted palette)
